@@ -909,7 +909,7 @@ def cat(tensors, dim=0):
     for i in range(1, len(tensors)):
         if tensors[i].is_ttm:
             raise InvalidArguments("Not implemented for tensor matrices.")
-        if tensors[i].N[:dim] != tensors[0].N[:dim] and tensors[i].N[(dim+1):] != tensors[0].N[(dim+1):]:
+        if tensors[i].N[:dim] != tensors[0].N[:dim] or tensors[i].N[(dim+1):] != tensors[0].N[(dim+1):]:
             raise InvalidArguments(
                 "The mode sizes must be the same on the nonconcatenated dimensions for all the provided tensors.")
         if len(tensors[i].N) != len(tensors[0].N):
